@@ -125,7 +125,15 @@ fn rt_item(r: &mut Rng, depth: u32, names: &[String], floats: bool) -> Item {
         0 | 1 => Item::int(gen_int(r)),
         2 => Item::bool(r.chance(1, 2)),
         3 => Item::instruction(r.pick(names).clone()),
-        4 => Item::name(r.pick(&["a", "foo", "x1", "ü", "k]", "a.b", "x(y", "1x", "e5", "--", "T", "true"]).to_string()),
+        4 => {
+            if r.chance(1, 4) {
+                // a name spelled like an instruction in another letter case is still a name
+                let n = r.pick(names);
+                Item::name(if r.chance(1, 2) { n.to_lowercase() } else { let mut c = n.to_lowercase(); c.replace_range(0..1, &n[0..1]); c })
+            } else {
+                Item::name(r.pick(&["a", "foo", "x1", "ü", "k]", "a.b", "x(y", "1x", "e5", "--", "T", "true"]).to_string())
+            }
+        }
         _ => Item::float(gen_float(r)),
     }
 }
